@@ -20,7 +20,9 @@ THR = {"A": (1, 2, 3, 2, 1), "B": (2, 4, 6, 2, 1), "Z": (0, 0, 0, 0, 0)}
 BUGS = {
     "graylistLE": ("Inv_Graylist", {}), "ctlUnderNone": ("Inv_Graylist", {}),
     "ihaveLE": ("Inv_Gossip", {}), "iwantLE": ("Inv_Gossip", {}), "emitGT": ("Inv_Gossip", {}),
-    "floodPubGT": ("Inv_Publish", {"FloodPublish": True}), "floodsubGT": ("Inv_Publish", {"FloodProto": "{p3}"}),
+    "floodPubGT": ("Inv_Publish", {"FloodPublish": True}),
+    # flood publishing also serves every mesh member, whatever its score
+    "floodPubMesh": ("Inv_Publish", {"FloodPublish": True}), "floodsubGT": ("Inv_Publish", {"FloodProto": "{p3}"}),
     # (dropping fanout peers AT the publish threshold is not listed: the same heartbeat's fill re-adds them, model and code alike)
     "fanoutSelGT": ("Inv_Publish", {}), "fanoutNoDrop": ("Inv_Publish", {}),
     "fanoutFillGT": ("Inv_Publish", {}),
@@ -35,7 +37,7 @@ BUGS = {
 }
 # one per predicate (plus the two no-PX rules) in the quick tier, all of them in the thorough tier
 QUICK_BUGS = ["graylistLE", "emitGT", "floodPubGT", "graftLE0", "pxOnNegRefusal", "hbNoPXunset", "acceptPXinv", "noDirectExempt",
-              "gaterNone", "fullBeforeNegative"]
+              "gaterNone", "fullBeforeNegative", "floodPubMesh"]
 
 # coverage obligations (DESIGN C09): tags emitted by ThresholdsTrace when a validated real step could tell the
 # two sides of a comparison apart
@@ -47,6 +49,12 @@ def obligations():
     need += ["neg-graft-pxavail/m1", "neg-graft-pxavail/eq", "neg-hb-pxavail/m1"]
     # a negative sender under every OTHER refusal precondition of handleGraft, with PX on and something to list
     need += ["neg-graft-meshfull-pxavail", "neg-graft-backoff-pxavail", "neg-graft-direct-pxavail"]
+    # own publication under flood publishing right after a score change (no heartbeat in between), per recipient class and
+    # score band; flood-own/mesh/belowpub|belowgray = "... while a mesh member scored below the publish threshold".
+    # (class "fanout" cannot occur: the flood branch never creates or consults a fanout.) The forwarded message is the contrast.
+    need += ["flood-own/%s/%s" % (c, b) for c in ("mesh", "plain", "floodsub", "direct")
+             for b in ("nonneg", "below0", "belowpub", "belowgray")]
+    need += ["forward-under-flood/mesh/belowpub", "forward-under-flood/mesh/belowgray"]
     need += ["px/%s/%s" % (r, c) for r in ("m1", "eq", "p1") for c in ("none", "valid")]
     need += ["px/eq/%s" % c for c in ("wrongid", "baddomain", "garbage", "notrecord")]
     need += ["px/dialled", "px/over-limit", "px/graylisted", "direct/below-graylist", "direct/gater-overloaded",
@@ -91,7 +99,7 @@ def model_check(ctx):
     def one(item):
         name, kw = item
         cfg = vlib.cfg_text(constants=mc_constants(**kw), invariants=["TypeOK", "Inv_All"])
-        r = vlib.run_tlc(ctx, FAMILY, "MCThresholds", cfg, workers=4, timeout=1500 if ctx.thorough else 400, name="mc-" + name)
+        r = vlib.run_tlc(ctx, FAMILY, "MCThresholds", cfg, workers=2, timeout=1500 if ctx.thorough else 400, name="mc-" + name)
         return name, r
 
     def bug(b):
@@ -100,7 +108,7 @@ def model_check(ctx):
         c = mc_constants(**kw)
         c.update(over)
         cfg = vlib.cfg_text(constants=c, invariants=[inv])
-        r = vlib.run_tlc(ctx, FAMILY, "MCThresholds", cfg, workers=2, timeout=300, name="bug-" + b)
+        r = vlib.run_tlc(ctx, FAMILY, "MCThresholds", cfg, workers=1, timeout=300, name="bug-" + b)
         return b, inv, r
 
     with cf.ThreadPoolExecutor(max_workers=2) as ex:
@@ -115,7 +123,7 @@ def model_check(ctx):
 
 def generate(ctx):
     """One TLC run enumerates the scenario programs of GenThresholds for every threshold set."""
-    fams = ["rpc1", "mix", "px", "gater", "meshA", "meshB", "fanA", "fanB", "joinfan", "graftfull", "graftbo"] + \
+    fams = ["rpc1", "mix", "px", "gater", "meshA", "meshB", "fanA", "fanB", "joinfan", "graftfull", "graftbo", "floodmesh", "floodplain"] + \
            (["rpc2"] if ctx.thorough else [])
     c = mc_constants("A", strings=True, free='{"p1", "p2", "p3"}')
     c["Families"] = "{" + ", ".join('"%s"' % f for f in fams) + "}"
@@ -345,7 +353,7 @@ def validate(ctx, traces):
         return k, r, owner
 
     viol, cov, states = [], set(), 0
-    with cf.ThreadPoolExecutor(max_workers=max(1, min(6, vlib.NCPU // 2))) as ex:
+    with cf.ThreadPoolExecutor(max_workers=max(1, min(4, vlib.NCPU // 2))) as ex:
         for k, r, owner in ex.map(one, range(len(chunks))):
             if r.hw is None or r.hw[0] < r.hw[1] or r.errors:
                 raise vlib.Inconclusive("trace validation did not read chunk %d completely (see %s/tlc.out): %s" % (k, r.dir, r.errors[:2]))
